@@ -38,6 +38,30 @@ Theorem C11_forgetful_reset_leaks : exists m, ~ fresh (forgetful_reset m).
 Proof. exact forgetful_reset_leaks. Qed.
 Print Assumptions C11_forgetful_reset_leaks.
 
+(* The pooled requestStream objects (requestStreamPool is shared by all requests of all connections)
+   are state left over from earlier requests too: releaseRequestStream zeroes EVERY field of the
+   object whatever state the stream was abandoned in, hence a stream acquired from the pool equals one
+   built on a new object; acquireRequestStream itself clears nothing (totalBytesRead, chunkLeft, eof,
+   err are taken over), so this rests on the release alone.  The harness compares the field list, the
+   real releaseRequestStream on a fully dirtied object, the fields acquireRequestStream sets, and the
+   hidden state of the stream later requests get after streams were abandoned in nine different ways. *)
+Theorem C11_request_stream_release_is_fresh : forall m f, In f rs_fields -> releaseRequestStream_m m f = 0.
+Proof. exact rs_release_is_fresh. Qed.
+Print Assumptions C11_request_stream_release_is_fresh.
+
+Theorem C11_request_stream_from_pool_is_new : forall v m f, In f rs_fields ->
+  acquireRequestStream_m v (releaseRequestStream_m m) f = acquireRequestStream_m v zero f.
+Proof. exact rs_acquire_after_release_is_new. Qed.
+Print Assumptions C11_request_stream_from_pool_is_new.
+
+Theorem C11_request_stream_acquire_trusts_the_pool : forall v m,
+  acquireRequestStream_m v m "requestStream.totalBytesRead" = m "requestStream.totalBytesRead" /\
+  acquireRequestStream_m v m "requestStream.chunkLeft" = m "requestStream.chunkLeft" /\
+  acquireRequestStream_m v m "requestStream.eof" = m "requestStream.eof" /\
+  acquireRequestStream_m v m "requestStream.err" = m "requestStream.err".
+Proof. exact rs_acquire_trusts_the_pool. Qed.
+Print Assumptions C11_request_stream_acquire_trusts_the_pool.
+
 (* Whether the handler is called, the status the server answers with, the body size limit and the
    write deadline in force for a request are functions of the server configuration and of that request
    alone (spec_dispatched, spec_status, spec_max, spec_wt) after ANY history on the connection:
